@@ -30,6 +30,8 @@ type Config struct {
 	CommentSlots func(Tok) bool
 	// LineCommentInline allows `# c` / `// c` at inline placeholders.
 	NoInlineLineComments bool
+	// SpecialComments lets the renderer emit #FASTLY macros and falco annotations as comments.
+	SpecialComments bool
 	// OnlyDecls restricts top level declaration kinds (nil = all).
 	OnlyDecls []string
 }
@@ -180,6 +182,9 @@ func (g *G) rawContent(term string) string {
 		b.WriteString(c)
 	}
 	s := b.String()
+	if g.avoid("newline-in-string") {
+		s = strings.ReplaceAll(s, "\n", " ")
+	}
 	for strings.Contains(s+"\"", term) || strings.Contains(s, term) {
 		s = strings.ReplaceAll(s, "\"", "'")
 	}
